@@ -15,7 +15,11 @@ RULE = ("seven generated families against the real CategoricalClassification met
         "self-description), labels (linear / harness-defined dyadic / recorded nonlinear decision values; scalar, list and ndarray "
         "class distributions; tie-free and tied; np.percentile modelled exactly in Q), noise_cat and noise_missing (RNG answer "
         "stream replayed by the Coq model, output must be reproduced exactly; Coq validators as fallback), down (resample / "
-        "shuffle answers replayed), session (random call sequences, dataset_info compared exactly); non-trivial = the case "
+        "shuffle answers replayed), session (random call sequences, dataset_info compared exactly), history and corr_history "
+        "(several calls on ONE generator object, each on its own input - fresh literal, generate_data() of the same object, or "
+        "an earlier input / output with permuted rows / columns - EVERY call judged against its own clause on the matrix it was "
+        "given and the self-description compared after every call; corr_history repeats generate_correlated with the same "
+        "feature index and row count after the data changed); non-trivial = the case "
         "exercises its clause (adds a column / has a binding cut point / flips at least one cell / drops at least one row); "
         "distinct = distinct canonical cases")
 THEOREMS = ["C20_corr", "C20_corr_tan", "C20_corr_construction", "C20_dup", "C20_dup_info", "C20_dup_prefix_refuted", "C20_combo",
@@ -944,6 +948,8 @@ def judge(case, res, val, ctx, stats):
 
 def nontrivial(case, res):
     k = case["kind"]
+    if k == "history":
+        return len(case["steps"]) >= 2
     if k in ("pipe", "session"):
         return len(case["ops"]) > 0
     if k == "corr":
@@ -1170,7 +1176,9 @@ def check(run, replay):
         plan = QUICK if run.tier == "quick" else THOROUGH
         for kind, cnt in plan.items():
             for _ in range(cnt):
-                cases.append(GENS[kind](run.rng, run.tier == "thorough"))
+                c = GENS[kind](run.rng, run.tier == "thorough")
+                c["family"] = kind
+                cases.append(c)
         if run.tier == "thorough":
             cases.extend(exhaustive_labels())
     stats = {}
@@ -1178,7 +1186,7 @@ def check(run, replay):
     hist = {}
     fams = {}
     for c, r, f in zip(cases, res, findings):
-        k = c["kind"]
+        k = c.get("family", c["kind"])
         hist[k] = hist.get(k, 0) + 1
         run.count_case(c, nontrivial(c, r))
         if f:
@@ -1200,9 +1208,14 @@ def check(run, replay):
                          "(C20_*_check_sound) instead" % fb)
     sizes = {}
     for c in cases:
-        b = "rows<=5" if len(c["X"]) <= 5 else "rows<=20" if len(c["X"]) <= 20 else "rows<=100" if len(c["X"]) <= 100 else "rows>100"
+        nrow = case_rows(c)
+        b = "rows<=5" if nrow <= 5 else "rows<=20" if nrow <= 20 else "rows<=100" if nrow <= 100 else "rows>100"
         sizes[b] = sizes.get(b, 0) + 1
-    run.cov["input_distribution"] = {"families": hist, "sizes": sizes, "stats": stats}
+    hcalls = {}
+    for c in cases:
+        if c["kind"] == "history":
+            hcalls[len(c["steps"])] = hcalls.get(len(c["steps"]), 0) + 1
+    run.cov["input_distribution"] = {"families": hist, "sizes": sizes, "calls_per_history": hcalls, "stats": stats}
     run.cov["exhaustive"] = False
     if run.tier == "thorough" and replay is None:
         run.cov["exhaustive_small_scope"] = ("labels: every cut position k/16 (2 classes) and every (a/8, b/8, rest) distribution (3 classes, list "
